@@ -71,6 +71,17 @@ def subUsize (a b : Nat) : Res Nat := if b ≤ a then .ok (a - b) else .panic .o
 /-- `a.checked_add(b).ok_or(ErrorCode::TLVTypeMismatch)` -/
 def checkedAdd (a b : Nat) : Res Nat := if a + b < USIZE then .ok (a + b) else .err .mismatch
 
+/-- `i32::MAX + 1`.  The nesting counter `level` of `container_next` / `container_value_len`
+(`let mut level = 1;` with no other constraint on its type) is an `i32` by integer-literal fallback. -/
+def I32LIM : Nat := 2 ^ 31
+/-- unchecked `a + b` on a non-negative `i32` (overflow-checks build: panic past `i32::MAX`) -/
+def addI32 (a b : Nat) : Res Nat := if a + b < I32LIM then .ok (a + b) else .panic .overflow
+/-- unchecked `a - b` on a non-negative `i32` whose result stays non-negative.  (With `b > a` the Rust
+`i32` would become negative without a panic; the only caller runs under the loop guard `level > 0`
+and subtracts 1, so that branch is unreachable — the model reports it as a panic, which only makes
+the no-panic theorems stronger.) -/
+def subI32 (a b : Nat) : Res Nat := if b ≤ a then .ok (a - b) else .panic .overflow
+
 /-- `slice.get(n..)` -/
 def getFrom (bs : Bytes) (n : Nat) : Option Bytes := if n ≤ bs.length then some (bs.drop n) else none
 /-- `slice.get(..n)` -/
@@ -267,12 +278,17 @@ def elemLen (bs : Bytes) : Res Nat := do
 end Old
 
 /-- the level bookkeeping shared by `container_next` and `container_value_len`:
-`if end { confirm; level -= 1 } else if is_container { level += 1 }` -/
+`if end { confirm; level -= 1 } else if is_container { level += 1 }`.
+`level` is an **`i32`** in the Rust (read.rs: `let mut level = 1; while level > 0 { … }`), so the
+increment is a checked `i32` addition: the overflow-checks build panics when `level` would pass
+`i32::MAX = 2^31 − 1` (`levelStep_overflow_reachable` in Props/C16), the release build wraps to a
+negative value and leaves the loop.  The no-panic theorems therefore carry the hypothesis
+`len < 2^31`: every container start costs at least one byte, so the counter stays below `2^31`. -/
 def levelStep (c : Control) (level : Nat) : Res Nat :=
   if c.vt.isContainerEnd then do
     c.confirmContainerEnd
-    subUsize level 1
-  else if c.vt.isContainer then addUsize level 1
+    subI32 level 1
+  else if c.vt.isContainer then addI32 level 1
   else .ok level
 
 /-- the `while level > 0` loop of `container_next` -/
